@@ -160,6 +160,9 @@ impl<T: Clone + Copy + Number> Matrix<T> {
     /// Swap two elements of the matrix 
     #[inline]
     pub fn swap_elem(&mut self, row_1: usize, col_1: usize, row_2: usize, col_2: usize ) {
+        // the row-major offset i * cols + j of an out-of-range column is another element's
+        if self.rows <= row_1 || self.rows <= row_2 { panic!( "Matrix range error in swap_elem" ); }
+        if self.cols <= col_1 || self.cols <= col_2 { panic!( "Matrix range error in swap_elem" ); }
         let mut temp = self[(row_1,col_1)].clone();
         mem::swap( &mut self[(row_2,col_2)], &mut temp );
         self[(row_1, col_1)] = temp;
